@@ -75,6 +75,12 @@ func (e *SExpr) String() string {
 		return e.Args[0].String() + ".(" + e.Type.String() + ")"
 	case "is":
 		return "is[" + e.Type.String() + "](" + e.Args[0].String() + ")"
+	case "mk":
+		var as []string
+		for _, a := range e.Args {
+			as = append(as, a.String())
+		}
+		return "mk[" + e.Type.String() + "](" + strings.Join(as, ", ") + ")"
 	case "old":
 		return "old(" + e.Args[0].String() + ")"
 	case "quant":
@@ -488,6 +494,21 @@ func (p *sparser) primary() *SExpr {
 			p.expectOp(")")
 			return &SExpr{Kind: "old", Args: []*SExpr{x}, Pos: t.pos}
 		}
+		if t.text == "mk" && p.isOp("[") {
+			p.next()
+			ty := p.parseType()
+			p.expectOp("]")
+			p.expectOp("(")
+			var args []*SExpr
+			for !p.isOp(")") {
+				args = append(args, p.expr())
+				if p.isOp(",") {
+					p.next()
+				}
+			}
+			p.expectOp(")")
+			return &SExpr{Kind: "mk", Type: ty, Args: args, Pos: t.pos}
+		}
 		if t.text == "is" && p.isOp("[") {
 			p.next()
 			ty := p.parseType()
@@ -576,6 +597,7 @@ type ContractSet struct {
 	Ghosts    map[string]*SType
 	Trusted   bool
 	Sealed    []string
+	Immutable []string
 }
 
 var clauseKeywords = map[string]bool{
@@ -703,6 +725,11 @@ func LoadContractFile(path string, trusted bool) (*ContractSet, error) {
 			}
 		case "sealed":
 			cs.Sealed = append(cs.Sealed, strings.Fields(rest)...)
+		case "immutable":
+			for _, n := range strings.Fields(rest + " " + joinBody()) {
+				immutableComps[n] = true
+				cs.Immutable = append(cs.Immutable, n)
+			}
 		case "ghost":
 			f := strings.Fields(rest)
 			if len(f) != 2 {
